@@ -53,12 +53,12 @@ class ExpectationValues:
 
         data["expectation_values"] = convert_array_to_dict(self.values)
 
-        if self.correlations:
+        if self.correlations is not None:
             data["correlations"] = []
             for correlation_matrix in self.correlations:
                 data["correlations"].append(convert_array_to_dict(correlation_matrix))
 
-        if self.estimator_covariances:
+        if self.estimator_covariances is not None:
             data["estimator_covariances"] = []
             for covariance_matrix in self.estimator_covariances:
                 data["estimator_covariances"].append(
@@ -73,13 +73,13 @@ class ExpectationValues:
 
         expectation_values = convert_dict_to_array(dictionary["expectation_values"])
         correlations: Optional[List] = None
-        if dictionary.get("correlations"):
+        if dictionary.get("correlations") is not None:
             correlations = []
             for correlation_matrix in cast(Iterable, dictionary.get("correlations")):
                 correlations.append(convert_dict_to_array(correlation_matrix))
 
         estimator_covariances: Union[List, None] = None
-        if dictionary.get("estimator_covariances"):
+        if dictionary.get("estimator_covariances") is not None:
             estimator_covariances = []
             for covariance_matrix in cast(
                 Iterable, dictionary.get("estimator_covariances")
